@@ -82,7 +82,9 @@ DoApps ==
   Profile = "apps" /\
   \/ \E g \in AppReqs : Try("AddApp", g)
   \/ \E id \in Ids(st.apps) \cup {9} : \E x \in {<<10, 5>>, <<0, 0>>, <<0, 5>>, <<10, -1>>, <<10, 0>>} : Try("UpdateGovTime", [app |-> id, gts |-> x[1], mgd |-> x[2]])
-  \/ \E id \in Ids(st.apps) \cup {9} : \E l \in TokLists : Try("AddAssetInApp", [app |-> id, toks |-> l])
+  \/ \E id \in Ids(st.apps) \cup {9} : \E l \in TokLists :
+        /\ (Len(l) = 0 \/ (Len(l) = 1 /\ (l[1].asset \in {3, 4, 9} \/ l[1].sup = 0 \/ l[1].rc = "bad"))) => AllToks(st) = {}     \* plain rejection probes: once per app set
+        /\ Try("AddAssetInApp", [app |-> id, toks |-> l])
 
 (* ------------------------------ profile "ext" ------------------------------ *)
 XR(app, pair, n, sf, cf, ddf, ceil, floor) ==
